@@ -737,6 +737,7 @@ def _is_log(st):
 
 
 def run(ctx, chk):
+    shared.rule_no_keyed_collapse(ctx, chk, "C01.0:keyed", ("value_iteration_reach",))      # parallel transitions are separate transitions
     # observed through the batch driver: run_games()[name]['probabilities'] must be this game's, this mode's value
     from . import C12 as _C12
     _C12.observe(ctx, chk, "C01.obs", ['probabilities'])
